@@ -243,9 +243,15 @@ class DomainParser:
             )
 
         action_preconditions = CompoundPrecondition()
+        # A body that is not a conjunction (a single literal, a negation) is the only conjunct.
+        conjuncts_ast = (
+            preconditions_ast[1:]
+            if preconditions_ast[0] == "and"
+            else [preconditions_ast]
+        )
         self.preconditions_parser.parse(
             precondition_root=action_preconditions.root,
-            preconditions_ast=preconditions_ast[1:],
+            preconditions_ast=conjuncts_ast,
             domain_functions=domain_functions,
             domain_types=domain_types,
             domain_predicates=domain_predicates,
